@@ -1,7 +1,7 @@
 SPECIFICATION Spec
 CONSTANTS
   P = 2
-  S = 1
+  S = 0
   Bug = "NoLevelInvariant"
   NL = 2
   MaxW = 2
